@@ -207,6 +207,8 @@ def make_grid(gspec, a, b):
         return G.SimpsonGrid(a, b, boundary=gspec.get("boundary", True))
     if t == "GlobalSimpson":
         return G.GlobalSimpsonGrid(a, b, boundary=gspec.get("boundary", True), modified_basis=gspec.get("modified", False))
+    if t == "Lagrange":
+        return G.LagrangeGrid(a, b, boundary=gspec.get("boundary", True), p=gspec.get("p", 2))
     raise ValueError(t)
 
 
@@ -246,6 +248,7 @@ def build(cfg, comps, reference=None, reuse=None):
     if st == "extend":
         from sparseSpACE.spatiallyAdaptiveExtendSplit import SpatiallyAdaptiveExtendScheme
         s = SpatiallyAdaptiveExtendScheme(a, b, operation=op, norm=norm, **opts)
+        s._verif_gridspec = dict(cfg["grid"])
         return s, EC.ErrorCalculatorExtendSplit(), f
     if st == "cell":
         from sparseSpACE.spatiallyAdaptiveCell import SpatiallyAdaptiveCellScheme
@@ -367,12 +370,23 @@ def component_sum_extend(s, f):
     duplicate-avoidance bookkeeping of the area started afresh), the grid's own rule on the sub-area."""
     total = np.zeros(f.output_length())
     per_area = []
+    spec = getattr(s, "_verif_gridspec", None)
+    hierarchical = spec is not None and spec.get("type") in ("Lagrange",)
+    if hierarchical:
+        # hierarchical (surplus based) grids have no nodal weights: the independent component result is the integrate() of a FRESH grid object
+        # of the same kind applied to a separate copy of the integrand
+        fresh_grid = make_grid(spec, np.asarray(s.a, float), np.asarray(s.b, float))
+        f_oracle = copy.deepcopy(f)
     for area in s.refinement.get_objects():
         area.levelvec_dict = {}
         v_area = np.zeros(f.output_length())
         for cg in s.scheme:
             lv, do_compute = s.coarsen_grid(cg.levelvector, area)
             if not do_compute:
+                continue
+            if hierarchical:
+                with quiet():
+                    v_area = v_area + cg.coefficient * np.asarray(fresh_grid.integrate(f_oracle, lv, area.start, area.end), float)
                 continue
             s.grid.setCurrentArea(area.start, area.end, lv)
             p, w = s.grid.get_points_and_weights()
